@@ -27,7 +27,7 @@ ASSUMPTIONS = ["a re-registration on the same token starts a new registration (i
                "registrations still alive, on what the server transmitted (not on what the lossy network delivered)"]
 EXPECTED_PROBES = ["change_during_render", "coalesced_burst", "change_while_in_flight", "end_by_rst", "end_by_new_request", "end_by_deregister",
                    "end_by_timeout", "end_by_icmp", "end_by_senderr", "end_by_error_notification", "end_by_last_notification", "end_by_shutdown",
-                   "non_registration", "several_observers", "rst_on_non_notification", "observers_share_a_host", "sendmsg_failed", "end_event_during_render", "explicit_notification", "own_observation_under_observers_token", "partition"]
+                   "non_registration", "several_observers", "rst_on_non_notification", "observers_share_a_host", "sendmsg_failed", "end_event_during_render", "explicit_notification", "own_observation_under_observers_token", "partition", "change_in_the_iteration_of_an_end"]
 
 REACTIONS = ["ack", "ack", "ack", "rst", "silent", "rereg", "dereg"]
 
@@ -38,6 +38,8 @@ def gen(r, tier):
     for i in range(nobs):
         observers.append({"id": i, "con": r.chance(0.7), "t": round(r.uniform(0, 1), 3),
                           "reactions": [r.choice(REACTIONS) if r.chance(0.5) else "ack" for _ in range(12)]})
+    if r.chance(0.25):
+        r.choice(observers)["sync_change"] = True
     ops = []
     t = 1.5
     for _ in range(r.randint(2, 14)):
@@ -108,6 +110,17 @@ def systematic(tier):
                                       {"id": 1, "con": False, "t": 0.5, "reactions": ["ack"] * 12}],
                         "ops": sorted([op, {"op": "change", "t": 2.0, "n": 1}, {"op": "change", "t": 4.0, "n": 2}],
                                       key=lambda o: o["t"]), "net": {}, "render_delay": 0.05})
+    for react in ("rst", "rereg", "dereg"):
+        for pos in (0, 1):
+            for con in (True, False):
+                # the application reports a change in the very loop iteration in which a registration ends
+                reactions = ["ack"] * 12
+                reactions[pos] = react
+                out.append({"observers": [{"id": 0, "con": True, "t": 0.1, "reactions": reactions, "sync_change": True},
+                                          {"id": 1, "con": con, "t": 0.2, "reactions": ["ack"] * 12},
+                                          {"id": 2, "con": True, "t": 0.3, "reactions": ["ack"] * 12},
+                                          {"id": 3, "con": con, "t": 0.4, "reactions": ["ack"] * 12}],
+                            "ops": [{"op": "change", "t": 2.0, "n": 1}, {"op": "change", "t": 4.0, "n": 1}], "net": {}})
     for kind in ("error_notify", "last_notify", "icmp", "shutdown", "senderr"):
         for tt in (2.0005, 2.5, 9.0):
             ops = [{"op": "change", "t": 2.0, "n": 2}, {"op": "change", "t": 4.0, "n": 1}, {"op": "change", "t": 12.0, "n": 1}]
@@ -137,6 +150,11 @@ def shrink(scn):
         c = dict(scn)
         c["net"] = {}
         yield c
+    for i, o in enumerate(obs):
+        if o.get("sync_change"):
+            c = dict(scn)
+            c["observers"] = obs[:i] + [{k: v for k, v in o.items() if k != "sync_change"}] + obs[i + 1:]
+            yield c
     for i, o in enumerate(obs):
         for k, rct in enumerate(o["reactions"]):
             if rct != "ack":
@@ -181,12 +199,27 @@ class Observer(ScriptedEndpoint):
         self.k = 0
         self.reqs = 0
 
-    def register(self, observe=0):
+    def register(self, observe=0, fate=None):
         self.reqs += 1
         m = {"type": rc.CON if self.spec["con"] else rc.NON, "code": rc.GET, "mid": 0x3000 + self.spec["id"] * 0x100 + self.reqs,
              "token": self.token, "options": ([(rc.OBSERVE, rc.uint_bytes(observe))] if observe is not None else []) +
              [(rc.URI_PATH, b"counter")], "payload": b""}
-        self.send(self.srv, msg=m)
+        self.send(self.srv, msg=m, fate=fate)
+        if fate is not None:
+            # (scheduled after the datagram: same instant, processed right behind it)
+            self.sim.loop.after(self.SYNC_LATENCY, self.on_sync_change)
+
+    SYNC_LATENCY = 0.02
+
+    def sync_fate(self, react):
+        """the application reports a state change in the very loop iteration in which this observer's reaction (which
+        ends its registration) is processed: something else the process listens to fires in the same instant"""
+        if not self.spec.get("sync_change") or self.on_sync_change is None:
+            return None
+        self.sim.probe("change_in_the_iteration_of_an_end")
+        return ["deliver", self.SYNC_LATENCY]
+
+    on_sync_change = None
 
     def handle(self, msg, src, data):
         if msg is not None and 1 <= msg["code"] < 32:
@@ -217,11 +250,14 @@ class Observer(ScriptedEndpoint):
             if msg["type"] == rc.CON:
                 self.send(src, msg={"type": rc.ACK, "code": 0, "mid": msg["mid"], "token": b"", "options": [], "payload": b""})
             if react == "rereg":
-                self.register(0)
+                self.register(0, fate=self.sync_fate(react))
             elif react == "dereg":
-                self.register(1)
+                self.register(1, fate=self.sync_fate(react))
         elif react == "rst":
-            self.send(src, msg={"type": rc.RST, "code": 0, "mid": msg["mid"], "token": b"", "options": [], "payload": b""})
+            fate = self.sync_fate(react)
+            self.send(src, msg={"type": rc.RST, "code": 0, "mid": msg["mid"], "token": b"", "options": [], "payload": b""}, fate=fate)
+            if fate is not None:
+                self.sim.loop.after(self.SYNC_LATENCY, self.on_sync_change)
             if msg["type"] == rc.NON:
                 self.sim.probe("rst_on_non_notification")
         # silent: nothing
@@ -290,7 +326,12 @@ def execute(sim, scn):
             self.changes.append(loop.now)
             if renders and scn.get("render_delay") and loop.now - renders[-1]["t"] < scn["render_delay"]:
                 sim.probe("change_during_render")
-            self.updated_state()
+            try:
+                self.updated_state()
+            except BaseException as e:  # (CancelledError is none of Exception)
+                if isinstance(e, (SystemExit, KeyboardInterrupt)):
+                    raise
+                sim.violation("C08/reporting-a-change-raises", {"t": loop.now, "exception": type(e).__name__, "state": self.state})
 
     counter = Counter()
 
@@ -310,6 +351,8 @@ def execute(sim, scn):
         observers = {o["id"]: Observer(sim, common.PEER_IPS[o["id"]], 5683, o, srv) for o in scn["observers"]}
     if len(observers) > 1:
         sim.probe("several_observers")
+    for ob in observers.values():
+        ob.on_sync_change = counter.change
     for o in scn["observers"]:
         loop.at(o["t"], observers[o["id"]].register, 0)
         if not o["con"]:
